@@ -283,10 +283,108 @@ def oracle(p):
                 torch.set_default_dtype(torch.float64)
     velocity_direct_checks(rng, max(24, n // 5), report, counts)
     steps0_checks(rng, report, counts)
+    generic_checks(rng, max(24, n // 5), report, counts)
     best = {}
     for f in fails:
         best.setdefault(f["key"], f)
     return {"fails": list(best.values()), "counts": counts}
+
+
+def generic_checks(rng, n, report, counts):
+    """GenericSpatialTransform (spatial/generic.py): parameters from a callable (a network returning a dict), from the
+    member modules (params=True) -- inverse(link in {False, True}, update_buffers) must invert, and keep inverting after
+    the callable's output changed (weights updated in place) or both transforms were re-conditioned"""
+    from deepali.spatial.generic import GenericSpatialTransform, TransformConfig
+    counts["generic"] = 0
+    torch.set_default_dtype(torch.float32)
+    try:
+        for it in range(n):
+            D = rng.choice([2, 3])
+            g = grid_of(D)
+            model = rng.choice(["Affine", "Affine", "Affine o SVF", "SVF", "SVF o Affine"])
+            aff = rng.choice(["TRS", "TR", "T", "RS", "TS", "A", "TQ"] if D == 3 else ["TRS", "TR", "T", "A", "TS"])
+            kind = rng.choice(["callable", "callable", "callable", "members"])
+            link, upd = rng.random() < 0.5, rng.random() < 0.5
+            change = rng.choice(["weights", "condition", "weights"])
+            case = {"cls": "GenericSpatialTransform", "D": D, "transform": model, "affine_model": aff, "kind": kind,
+                    "link": link, "upd": upd, "change": change}
+            try:
+                cfg = TransformConfig(transform=model, affine_model=aff, scaling_and_squaring_steps=5)
+                state = {"w": 1.0}
+                base = {}
+                r2 = random.Random(8000 + it)
+                if "T" in aff:
+                    base["translation"] = torch.tensor([rnd_params(r2, "Translation", D)], dtype=torch.float32)
+                if "R" in aff:
+                    base["rotation"] = torch.tensor([rnd_params(r2, "EulerRotation", D)], dtype=torch.float32)
+                if "S" in aff:
+                    base["scaling"] = torch.tensor([rnd_params(r2, "AnisotropicScaling", D)], dtype=torch.float32)
+                if "Q" in aff:
+                    base["quaternion"] = torch.tensor([rnd_params(r2, "QuaternionRotation", 3)], dtype=torch.float32)
+                if "A" in aff:
+                    base["affine"] = torch.tensor([rnd_params(r2, "HomogeneousTransform", D)], dtype=torch.float32)
+                if "SVF" in model:
+                    base["nonrigid"] = smooth_field(r2, D, tuple(g.shape), 0.05).float()
+
+                def net(c=None, base=base, state=state):
+                    k = state["w"] * (1.0 if c is None else float(c))
+                    out = {}
+                    for name, v in base.items():
+                        if name == "scaling":
+                            out[name] = 1 + (v - 1) * k
+                        elif name == "quaternion":
+                            out[name] = v * 1.0
+                        elif name == "affine":
+                            eye = torch.eye(D, D + 1).unsqueeze(0)
+                            out[name] = eye + (v - eye) * k
+                        else:
+                            out[name] = v * k
+                    return out
+                if kind == "callable":
+                    t = GenericSpatialTransform(g, params=net, config=cfg)
+                else:
+                    t = GenericSpatialTransform(g, params=True, config=cfg)
+                    with torch.no_grad():
+                        for name, m in t.named_transforms():
+                            m.data().copy_(net()[name])
+                x = (torch.rand((1, 8, D), generator=torch.Generator().manual_seed(it)) * 1.0 - 0.5).float()
+                tol = 2e-2 if "SVF" in model else 2e-5
+                with torch.no_grad():
+                    y = t(x)
+                    if kind == "members" and link:
+                        inv = None     # Parameter-held members: covered by the per-class cases
+                    else:
+                        inv = t.inverse(link=link, update_buffers=upd)
+                    if inv is None:
+                        continue
+                    counts["generic"] += 1
+                    e = maxerr(inv(y), x)
+                    if e > tol:
+                        report(f"C07:GenericSpatialTransform.inverse:{kind}:{'link' if link else 'nolink'}:not-inverse",
+                               f"inverse of the generic transform is off by {e:.3g} (cube units)", case)
+                        continue
+                    # later change of what the callable predicts / of the member parameters
+                    if kind == "callable":
+                        if change == "weights":
+                            state["w"] = 0.4
+                        else:
+                            t.condition_(0.5)
+                            inv.condition_(0.5)
+                    else:
+                        for name, m in t.named_transforms():
+                            m.data().mul_(0.5) if name not in ("scaling", "quaternion", "affine") else None
+                    y2 = t(x)
+                    moved = maxerr(y2, y)
+                    e = maxerr(inv(y2), x)
+                    case["forward_moved_by"] = moved
+                    if e > tol:
+                        report(f"C07:GenericSpatialTransform.inverse:{kind}:{'link' if link else 'nolink'}:stale-after-{change}",
+                               f"after the change (forward map moved by {moved:.3g}) the inverse no longer inverts: error {e:.3g}", case)
+            except Exception as e:  # noqa
+                counts["raised"] += 1
+                report(f"C07:GenericSpatialTransform.inverse:{kind}:raises", f"{type(e).__name__}: {str(e)[:140]}", case)
+    finally:
+        torch.set_default_dtype(torch.float64)
 
 
 def steps0_checks(rng, report, counts):
